@@ -289,7 +289,12 @@ def run_runner(world, case):
     feed = world.feed(case['kind'], case['off'], case['data'], case['shape'] == 'where')
     root = tempfile.mkdtemp(prefix='reg-', dir=os.getcwd())
     regfix.publish(root, 'c10', '1')
-    registry = Registry(root, source.bind(RECORDER()))
+    if case.get('entry') == 'eval':      # the evaluation entry point of the runner: the window is extracted the same way
+        from forml import evaluation as evalmod
+        spec = project.Evaluation(evalmod.Function(lambda true, pred: 0.0), evalmod.HoldOut(test_size=0.5, random_state=1))
+        registry = Registry(root, source.bind(RECORDER(), evaluation=spec))
+    else:
+        registry = Registry(root, source.bind(RECORDER()))
     pkey, rkey = asset.Project.Key('c10'), asset.Release.Key('1')
     seg = 'train' if case['launches'][0]['via'] == 'train' else 'apply'
     events = []
@@ -307,7 +312,7 @@ def run_runner(world, case):
         del SEEN[:]
         try:
             with runner:
-                (runner.train if seg == 'train' else runner.apply)(lower, upper)
+                (runner.eval_perftrack if case.get('entry') == 'eval' else runner.train if seg == 'train' else runner.apply)(lower, upper)
             seen = [ids for mode, ids in SEEN if mode == seg]
             if len(seen) != 1:
                 raise tlc.MachineryError(f'recorder saw {len(seen)} {seg} calls in one launch')
@@ -551,6 +556,10 @@ def main(chk):
             for idx, beh in enumerate(rnd.sample([b for b in loads if b['mode'] == 'windows'], 6 if chk.quick else 40)):
                 kind, form = rotor.combos(1)[0]
                 cases.append(through_runner(case_from_behaviour(beh, kind, form, rotor, rnd, span, len(cases)), 'apply'))
+            # Runner.eval_perftrack (the evaluation entry point) extracts its window like Runner.apply
+            for idx, beh in enumerate(rnd.sample([b for b in loads if b['mode'] == 'windows'], 6 if chk.quick else 40)):
+                kind, form = rotor.combos(1)[0]
+                cases.append(dict(through_runner(case_from_behaviour(beh, kind, form, rotor, rnd, span, len(cases)), 'apply'), entry='eval'))
     # ---- 3. code -> spec only: randomized cases beyond the constants of the model
     for _ in range(150 if chk.quick else 1200):
         cases.append(random_case(rnd, rotor, 'load'))
@@ -651,6 +660,8 @@ def describe(case, seg, n, event, want_res, want_rows, what=None):
     lower, upper, last = concrete(case, launch)
     head = (f'{case["kind"]} ordinal once={case["alias"]!r}' if case['ordinal'] else f'{case["kind"]} source without ordinal')
     call = {'load': 'Feed.load', 'train': 'Runner.train', 'apply': 'Runner.apply'}[launch['via']]
+    if case.get('entry') == 'eval':
+        call = 'Runner.eval_perftrack'
     text = (f'{head}, {call}(lower={lower!r}, upper={upper!r})' + (f' with last training ordinal {last!r}' if launch['via'] == 'train' else '')
             + f' [{seg} driver, launch {n + 1}/{len(case["launches"])}]: {event["res"]}, delivered ids {event["rows"]}')
     if want_res is not None:
